@@ -17,6 +17,8 @@ ID_FAMILIES = [
     ["type", "match", "api_type", "api_match"],
     # ids whose remainder after trimming the common affixes would start with a digit
     ["get_item_1", "get_item_2", "get_item_3"], ["v1_list_all", "v1_2_all", "v1_get_all"],
+    # ids equal to the names of the generated client's own constructors
+    ["new", "with_client", "fetch_session", "with_base_url"],
     # ids whose remainder after trimming is a Rust keyword
     ["shape_list", "shape_type", "shape_match"], ["do_fn_x", "do_mod_x", "do_use_x"],
 ]
